@@ -184,7 +184,9 @@ func main() {
 	case "eval":
 		res, err = cmdEval(*prop, *n, *seed, *driver, *out, *corpus)
 	case "micro":
-		res, err = cmdMicro(*prop, *n, *seed, *driver, *out)
+		res, err = cmdMicro(*prop, *n, *seed, *driver, *out, "")
+	case "builders":
+		res, err = cmdMicro(*prop, *n, *seed, *driver, *out, "builders")
 	case "codec":
 		res, err = cmdCodec(*prop, *n, *seed, *driver, *out)
 	case "forms":
